@@ -57,6 +57,7 @@ kf!(c02_unary_template_float, 10, |_arena| {
     }
     kani::cover!(y.is_nan());
     kani::cover!(y.is_infinite());
+    std::mem::forget(r);
 });
 
 kf!(c02_unary_template_fixnum_arg, 10, |_arena| {
@@ -72,6 +73,7 @@ kf!(c02_unary_template_fixnum_arg, 10, |_arena| {
         Ok(v) => assert!(y.is_finite() && v.to_bits() == y.to_bits()),
         Err(_) => assert!(!y.is_finite()),
     }
+    std::mem::forget(r);
 });
 
 kf!(c02_float_conv, 10, |_arena| {
@@ -101,6 +103,7 @@ kf!(c02_sqrt_guard, 10, |_arena| {
         }
     }
     kani::cover!(x == 0.0 && x.is_sign_negative());
+    std::mem::forget(r);
 });
 
 kf!(c02_sqrt_guard_fixnum, 10, |_arena| {
@@ -111,6 +114,7 @@ kf!(c02_sqrt_guard_fixnum, 10, |_arena| {
     } else {
         assert!(r.is_ok());
     }
+    std::mem::forget(r);
 });
 
 // atan2(0, 0) in any zero representation is undefined
@@ -121,9 +125,11 @@ kf!(c02_atan2_guard, 10, |_arena| {
     let x = if zx { flt(0.0) } else { fx(0) };
     let r = atan2(y, x);
     assert!(r.is_err() && err_kind() == 2);
+    std::mem::forget(r);
 });
 
-// division: zero divisor of every representation -> zero_divisor; otherwise Number::div
+// division: a zero divisor of every representation -> zero_divisor, and nothing else is
+// reported as a zero divisor (the quotient itself is IEEE `/`, see c02_div_f)
 kf!(c02_div_guard, 10, |_arena| {
     let x = any_finite();
     let d = any_finite();
@@ -131,16 +137,10 @@ kf!(c02_div_guard, 10, |_arena| {
     if d == 0.0 {
         assert!(r.is_err() && err_kind() == 1);
     } else {
-        let ieee = x / d;
-        match r {
-            Ok(Number::Float(OrderedFloat(v))) => {
-                assert!(ieee.is_finite() && v.to_bits() == ieee.to_bits())
-            }
-            Ok(_) => assert!(false),
-            Err(_) => assert!(!ieee.is_finite() && err_kind() == 0),
-        }
+        assert!(err_kind() != 1);
     }
     kani::cover!(d == 0.0 && d.is_sign_negative());
+    std::mem::forget(r);
 });
 
 kf!(c02_div_guard_fixnum_zero, 10, |_arena| {
@@ -150,6 +150,8 @@ kf!(c02_div_guard_fixnum_zero, 10, |_arena| {
     let x = any_finite();
     let r2 = div(flt(x), fx(0));
     assert!(r2.is_err());
+    std::mem::forget(r);
+    std::mem::forget(r2);
 });
 
 // 0 ** negative and 0 ^ negative are undefined for float operands too
@@ -166,6 +168,9 @@ kf!(c02_pow_zero_negative, 10, |arena| {
     kani::assume(a.get_num() < 0);
     let r3 = pow(fx(0), Number::Fixnum(a), atom!("**"));
     assert!(r3.is_err() && err_kind() == 2);
+    std::mem::forget(r);
+    std::mem::forget(r2);
+    std::mem::forget(r3);
 });
 
 // ---- floor / ceiling / truncate / round on floats ----
@@ -254,6 +259,7 @@ kf!(c02_round, 10, |arena| {
     }
     kani::cover!(x == 2.5);
     kani::cover!(x == LIM);
+    std::mem::forget(r);
 });
 
 // mixed min/max: compared as doubles
